@@ -6,6 +6,7 @@
 package main
 
 import (
+	"encoding/json"
 	"errors"
 	"fmt"
 	"math/rand"
@@ -37,7 +38,8 @@ type Resp struct {
 	ReqOK   bool  `json:"req_ok"`
 	IsBlock bool  `json:"is_block"`
 	Tok     int64 `json:"tok"`
-	Prog    int   `json:"prog"` // 0 no progress, 1 finished, 2 progressed only
+	Prog    int   `json:"prog"`          // 0 no progress, 1 finished, 2 progressed only
+	Now     int64 `json:"now,omitempty"` // timed family: clock reading before HandleResp (ns)
 }
 
 // Call is one GetBlock call.
@@ -46,12 +48,17 @@ type Call struct {
 	Enc     int    `json:"enc"`    // 0 witness, 1 base
 	Resps   []Resp `json:"resps"`
 	Verdict string `json:"verdict"` // ok|err|quit
+	// timed family: before the call, wait until no scripted peer is banned
+	// any more (the bans lapse; no UnbanPeer, no restart)
+	LapseBefore bool `json:"lapse_before,omitempty"`
 	// observations
 	Res     string     `json:"res,omitempty"` // block|query|quit|other
 	ResTok  int64      `json:"res_tok,omitempty"`
 	Queried bool       `json:"queried,omitempty"`
 	Cache   [][3]int64 `json:"cache,omitempty"` // enc, block id, token; most recent first
 	Bans    []int      `json:"bans,omitempty"`
+	BanNs   int64      `json:"ban_ns,omitempty"`  // timed family: neutrino.BanDuration during the call
+	ObsNow  int64      `json:"obs_now,omitempty"` // timed family: clock reading of the IsBanned sweep
 }
 
 // History is one replayable case.
@@ -60,6 +67,8 @@ type History struct {
 	ChainSeed int64         `json:"chain_seed"`
 	Specs     []q.BlockSpec `json:"specs"`
 	CacheCap  uint64        `json:"cache_cap"`
+	Timed     bool          `json:"timed,omitempty"`
+	Ambiguous bool          `json:"ambiguous,omitempty"` // a ban straddled a second boundary: dropped
 	Calls     []Call        `json:"calls"`
 	// oracle table rows: tok, hash id, sanity, witness, size
 	Oracle [][5]int64 `json:"oracle,omitempty"`
@@ -355,7 +364,11 @@ var (
 )
 
 func getChain(h *History, work string) (*q.Chain, string) {
-	key := fmt.Sprintf("%d/%v", h.ChainSeed, h.Specs)
+	return getChainOf(h.ChainSeed, h.Specs, work)
+}
+
+func getChainOf(chainSeed int64, specs []q.BlockSpec, work string) (*q.Chain, string) {
+	key := fmt.Sprintf("%d/%v", chainSeed, specs)
 	chainMu.Lock()
 	e := chains[key]
 	if e == nil {
@@ -364,13 +377,16 @@ func getChain(h *History, work string) (*q.Chain, string) {
 	}
 	chainMu.Unlock()
 	e.once.Do(func() {
-		e.chain = q.BuildChain(rand.New(rand.NewSource(h.ChainSeed)), h.Specs, len(h.Specs), nil)
+		e.chain = q.BuildChain(rand.New(rand.NewSource(chainSeed)), specs, len(specs), nil)
 		q.MakeTemplate(e.tmpl, e.chain)
 	})
 	return e.chain, e.tmpl
 }
 
-func runHistory(h *History, work string) {
+func runHistory(h *History, work string, tc *timedCtl) {
+	if tc != nil {
+		defer tc.park() // a history without a lapse step never parks
+	}
 	ch, tmpl := getChain(h, work)
 	dir := filepath.Join(work, fmt.Sprintf("case-%d", h.ID))
 	q.CopyDir(tmpl, dir)
@@ -386,6 +402,19 @@ func runHistory(h *History, work string) {
 
 	for ci := range h.Calls {
 		cl := &h.Calls[ci]
+		if h.Timed && cl.LapseBefore {
+			if tc != nil {
+				tc.park()
+				tc.leave()
+				<-tc.resume
+				tc.enter()
+			}
+			if !waitLapse(env.CS) {
+				h.Fail = fmt.Sprintf("lapse: a ban of %v did not lapse within %v (call %d)", neutrino.BanDuration, lapseDeadline, ci)
+				return
+			}
+		}
+		cl.BanNs = int64(neutrino.BanDuration)
 		var target chainhash.Hash
 		if cl.Height >= 0 {
 			target = ch.Hashes[cl.Height]
@@ -417,7 +446,23 @@ func runHistory(h *History, work string) {
 					r.IsBlock = true
 					r.Tok = ru.oracleRow(b)
 				}
+				offends := false
+				if o, isb := ru.oracle[r.Tok]; h.Timed && r.ReqOK && r.IsBlock && isb && cl.Height >= 0 &&
+					o[1] == int64(cl.Height) && !(o[2] == 1 && o[3] == 1) {
+					// the ban this response earns must not straddle a whole
+					// second (banman records the expiry in seconds)
+					offends = true
+					alignBan(time.Duration(cl.BanNs))
+				}
+				t0 := time.Now().UnixNano()
 				pr := reqs[0].HandleResp(req, msg, q.PeerAddr(r.Peer))
+				if h.Timed {
+					t1 := time.Now().UnixNano()
+					r.Now = t0
+					if offends && floorDiv(t0+cl.BanNs, 1e9) != floorDiv(t1+cl.BanNs, 1e9) {
+						h.Ambiguous = true
+					}
+				}
 				switch {
 				case pr.Finished:
 					r.Prog = 1
@@ -495,10 +540,23 @@ func runHistory(h *History, work string) {
 			cl.Cache = append(cl.Cache, [3]int64{e, ru.hid(k.Hash), t})
 			return true
 		})
-		cl.Bans = []int{}
-		for p := 0; p < nPeers; p++ {
-			if env.CS.IsBanned(q.PeerAddr(p)) {
-				cl.Bans = append(cl.Bans, p)
+		for try := 0; ; try++ {
+			s0 := time.Now().UnixNano()
+			cl.Bans = []int{}
+			for p := 0; p < nPeers; p++ {
+				if env.CS.IsBanned(q.PeerAddr(p)) {
+					cl.Bans = append(cl.Bans, p)
+				}
+			}
+			s1 := time.Now().UnixNano()
+			cl.ObsNow = s0
+			// timed family: all reads of one sweep within one second (a
+			// ban lapses at a whole second)
+			if !h.Timed || floorDiv(s0, 1e9) == floorDiv(s1, 1e9) || try >= 5 {
+				if h.Timed && floorDiv(s0, 1e9) != floorDiv(s1, 1e9) {
+					h.Ambiguous = true
+				}
+				break
 			}
 		}
 		if len(ru.fails) > 0 && h.Fail == "" {
@@ -544,7 +602,11 @@ func caseTerm(h *History) (string, string) {
 		var rs, pg []string
 		s := ""
 		for _, r := range cl.Resps {
-			rs = append(rs, c.App("R_", c.Bool(r.ReqOK), c.Bool(r.IsBlock), c.Z(int64(r.Peer)), c.Z(r.Tok)))
+			if h.Timed {
+				rs = append(rs, c.App("TR_", c.Bool(r.ReqOK), c.Bool(r.IsBlock), c.Z(int64(r.Peer)), c.Z(r.Tok), c.Z(r.Now)))
+			} else {
+				rs = append(rs, c.App("R_", c.Bool(r.ReqOK), c.Bool(r.IsBlock), c.Z(int64(r.Peer)), c.Z(r.Tok)))
+			}
 			if cl.Queried {
 				switch r.Prog {
 				case 1:
@@ -571,6 +633,9 @@ func caseTerm(h *History) (string, string) {
 			blk = 5000 + int64(i)
 		}
 		call := c.App("C_", c.Z(blk), c.Bool(cl.Height >= 0), c.Z(int64(cl.Enc)), c.List(rs), v)
+		if h.Timed {
+			call = c.App("TC_", c.Z(blk), c.Bool(cl.Height >= 0), c.Z(int64(cl.Enc)), c.List(rs), v, c.Z(cl.BanNs), c.Z(cl.ObsNow))
+		}
 		var cache []string
 		for _, e := range cl.Cache {
 			cache = append(cache, fmt.Sprintf("((%s, %s), %s)", c.Z(e[0]), c.Z(e[1]), c.Z(e[2])))
@@ -591,22 +656,73 @@ func caseTerm(h *History) (string, string) {
 		}
 		sig = append(sig, s)
 	}
+	if h.Timed {
+		var ps []int64
+		for p := 0; p < nPeers; p++ {
+			ps = append(ps, int64(p))
+		}
+		return fmt.Sprintf("(%d, (%d, %s, %s,\n  %s))", h.ID, h.CacheCap, c.List(rows), c.Ints(ps), c.List(steps)),
+			timedSig(h, strings.Join(sig, "."))
+	}
 	return fmt.Sprintf("(%d, (%d, %s,\n  %s))", h.ID, h.CacheCap, c.List(rows), c.List(steps)), strings.Join(sig, ".")
 }
+
+// readReplay reads a history file: the harness's own hist-*.json or the
+// replay file ./check writes around it ({"history": ...}).
+func readReplay(path string) []byte {
+	raw, err := os.ReadFile(path)
+	if err != nil {
+		panic(err)
+	}
+	var wrap struct {
+		History json.RawMessage `json:"history"`
+	}
+	if json.Unmarshal(raw, &wrap) == nil && len(wrap.History) > 0 && string(wrap.History) != "null" {
+		return wrap.History
+	}
+	return raw
+}
+
+const casesHead = "From Coq Require Import ZArith List Bool.\nFrom Verif Require Import C06.Model C06.Spec C06.Replay%s.\nImport ListNotations.\nOpen Scope Z_scope.\n"
+const casesTail = "Set Printing Width 1000000.\nSet Printing Depth 1000000.\nPrint R.\n"
 
 func main() {
 	a := c.ParseArgs()
 	rep := c.NewReport("C06", a)
-	var hs []History
+	var hs, ts []History
+	var fs []FHistory
 	if a.Replay != "" {
-		var h History
-		c.ReadJSON(a.Replay, &h)
-		hs = []History{h}
+		raw := readReplay(a.Replay)
+		var probe struct {
+			Timed bool `json:"timed"`
+			Full  bool `json:"full"`
+		}
+		if err := json.Unmarshal(raw, &probe); err != nil {
+			panic(err)
+		}
+		switch {
+		case probe.Full:
+			var h FHistory
+			if err := json.Unmarshal(raw, &h); err != nil {
+				panic(err)
+			}
+			fs = []FHistory{h}
+		default:
+			var h History
+			if err := json.Unmarshal(raw, &h); err != nil {
+				panic(err)
+			}
+			if probe.Timed {
+				ts = []History{h}
+			} else {
+				hs = []History{h}
+			}
+		}
 	} else {
 		hs = corpus(4242)
-		n := 160
+		n, nt, nf := 160, 12, 14
 		if a.Tier == "thorough" {
-			n = 6000
+			n, nt, nf = 6000, 120, 360
 		}
 		nchains := 4
 		var specs [][]q.BlockSpec
@@ -618,6 +734,20 @@ func main() {
 			k := r.Intn(nchains)
 			hs = append(hs, genHistory(r, len(hs), a.Seed*10+int64(k), specs[k]))
 		}
+		ts = timedCorpus(4242)
+		for i := 0; i < nt; i++ {
+			r := c.Rng(a.Seed, 300000+i)
+			k := r.Intn(nchains)
+			ts = append(ts, genTimed(r, timedIDBase+len(ts), a.Seed*10+int64(k), specs[k]))
+		}
+		fs = fullCorpus(4242)
+		for i := 0; i < nf; i++ {
+			r := c.Rng(a.Seed, 600000+i)
+			k := r.Intn(nchains)
+			// a third of the histories contain one attempt that ends by
+			// the worker's job timer (2 s of real time)
+			fs = append(fs, genFull(r, fullIDBase+len(fs), a.Seed*10+int64(k), specs[k], i%3 == 0))
+		}
 	}
 	work, err := os.MkdirTemp(a.Out, "work")
 	if err != nil {
@@ -625,23 +755,77 @@ func main() {
 	}
 	defer os.RemoveAll(work)
 
+	guard := func(fail *string, f func()) {
+		defer func() {
+			if e := recover(); e != nil {
+				*fail = fmt.Sprintf("panic: %v", e)
+			}
+		}()
+		f()
+	}
+
+	// phase A: the timed histories run up to their lapse step under the
+	// short ban duration (nothing else runs)
+	prodBan := neutrino.BanDuration
+	resume := make(chan struct{})
+	var twg sync.WaitGroup
+	if len(ts) > 0 {
+		neutrino.BanDuration = timedBan
+		ctls := make([]*timedCtl, len(ts))
+		tsem := make(chan struct{}, a.Workers)
+		for i := range ts {
+			ctls[i] = newTimedCtl(resume, tsem)
+			twg.Add(1)
+			go func(h *History, tc *timedCtl) {
+				defer twg.Done()
+				tc.enter()
+				defer tc.leave()
+				defer tc.park()
+				guard(&h.Fail, func() { runHistory(h, work, tc) })
+			}(&ts[i], ctls[i])
+		}
+		for _, tc := range ctls {
+			<-tc.parked
+		}
+		neutrino.BanDuration = prodBan
+	}
+
+	// phase B: the scripted-dispatcher histories and the full-service
+	// histories, under the production ban duration
 	var wg sync.WaitGroup
 	sem := make(chan struct{}, a.Workers)
+	fsem := make(chan struct{}, 24)
+	wg.Add(1)
+	go func() {
+		defer wg.Done()
+		for i := range fs {
+			wg.Add(1)
+			fsem <- struct{}{}
+			go func(h *FHistory) {
+				defer wg.Done()
+				defer func() { <-fsem }()
+				guard(&h.Fail, func() { runFull(h, work) })
+			}(&fs[i])
+		}
+	}()
 	for i := range hs {
 		wg.Add(1)
 		sem <- struct{}{}
 		go func(h *History) {
 			defer wg.Done()
 			defer func() { <-sem }()
-			defer func() {
-				if e := recover(); e != nil {
-					h.Fail = fmt.Sprintf("panic: %v", e)
-				}
-			}()
-			runHistory(h, work)
+			guard(&h.Fail, func() { runHistory(h, work, nil) })
 		}(&hs[i])
 	}
 	wg.Wait()
+
+	// phase C: the timed histories go on (their bans have lapsed meanwhile)
+	if len(ts) > 0 {
+		neutrino.BanDuration = timedBan
+		close(resume)
+		twg.Wait()
+		neutrino.BanDuration = prodBan
+	}
 
 	sigs := c.Signatures{}
 	nontrivial := c.Signatures{}
@@ -656,11 +840,16 @@ func main() {
 		if len(hs) > shard {
 			name = fmt.Sprintf("cases_%d.v", nshard)
 		}
-		body := "From Coq Require Import ZArith List Bool.\nFrom Verif Require Import C06.Model C06.Spec C06.Replay.\nImport ListNotations.\nOpen Scope Z_scope.\nDefinition cases : list (Z * case) := [\n" +
-			sb.String() + "].\nDefinition R := Eval vm_compute in (run_cases cases).\nSet Printing Width 1000000.\nSet Printing Depth 1000000.\nPrint R.\n"
+		body := fmt.Sprintf(casesHead, "") + "Definition cases : list (Z * case) := [\n" +
+			sb.String() + "].\nDefinition R := Eval vm_compute in (run_cases cases).\n" + casesTail
 		c.WriteFile(filepath.Join(a.Out, name), body)
 		sb.Reset()
 		nshard++
+	}
+	fail := func(id int, what string) bool {
+		tag := strings.SplitN(what, ":", 2)[0]
+		rep.ImplFailures = append(rep.ImplFailures, c.ImplFailure{Case: fmt.Sprint(id), Step: 0, What: what, Tag: tag})
+		return tag == "hang" || tag == "panic" || tag == "setup" || tag == "lapse"
 	}
 	inShard := 0
 	for i := range hs {
@@ -668,12 +857,8 @@ func main() {
 		path := filepath.Join(a.Out, fmt.Sprintf("hist-%d.json", h.ID))
 		c.WriteJSON(path, h)
 		rep.Cases[fmt.Sprint(h.ID)] = path
-		if h.Fail != "" {
-			tag := strings.SplitN(h.Fail, ":", 2)[0]
-			rep.ImplFailures = append(rep.ImplFailures, c.ImplFailure{Case: fmt.Sprint(h.ID), Step: 0, What: h.Fail, Tag: tag})
-			if tag == "hang" || tag == "panic" {
-				continue
-			}
+		if h.Fail != "" && fail(h.ID, h.Fail) {
+			continue
 		}
 		t, sig := caseTerm(h)
 		if inShard > 0 {
@@ -707,12 +892,114 @@ func main() {
 	if nshard == 0 {
 		c.WriteFile(filepath.Join(a.Out, "cases.v"), "From Coq Require Import ZArith List.\nImport ListNotations.\nDefinition R : list (Z*Z*Z*Z) := [].\nPrint R.\n")
 	}
+
+	// timed family
+	if len(ts) > 0 {
+		var tb []string
+		for i := range ts {
+			h := &ts[i]
+			path := filepath.Join(a.Out, fmt.Sprintf("hist-%d.json", h.ID))
+			c.WriteJSON(path, h)
+			rep.Cases[fmt.Sprint(h.ID)] = path
+			if h.Fail != "" && fail(h.ID, h.Fail) {
+				continue
+			}
+			if h.Ambiguous {
+				rep.Histogram["timed:dropped_ambiguous_clock"]++
+				continue
+			}
+			t, sig := caseTerm(h)
+			tb = append(tb, t)
+			rep.Histogram["timed:histories"]++
+			again := false
+			seen := map[int]bool{}
+			lapsed := false
+			for _, cl := range h.Calls {
+				if cl.LapseBefore {
+					lapsed = true
+					rep.Histogram["timed:lapses"]++
+				}
+				for _, p := range cl.Bans {
+					if lapsed && seen[p] {
+						again = true
+					}
+				}
+				if !lapsed {
+					for _, p := range cl.Bans {
+						seen[p] = true
+					}
+				}
+			}
+			if again {
+				rep.Histogram["timed:reoffender_banned_again"]++
+				nontrivial.Add("t:" + sig)
+			}
+			sigs.Add("t:" + sig)
+		}
+		body := fmt.Sprintf(casesHead, " C06.TModel C06.ReplayT") + "Definition tcases : list (Z * tcase) := [\n" +
+			strings.Join(tb, ";\n") + "].\nDefinition R := Eval vm_compute in (run_tcases tcases).\n" + casesTail
+		c.WriteFile(filepath.Join(a.Out, "cases_t.v"), body)
+	}
+
+	// full-service family
+	if len(fs) > 0 {
+		var fb []string
+		for i := range fs {
+			h := &fs[i]
+			path := filepath.Join(a.Out, fmt.Sprintf("hist-%d.json", h.ID))
+			c.WriteJSON(path, h)
+			rep.Cases[fmt.Sprint(h.ID)] = path
+			if h.Fail != "" && fail(h.ID, h.Fail) {
+				continue
+			}
+			if h.Starved {
+				rep.Histogram["full:dropped_starved_worker"]++
+				continue
+			}
+			t, sig := fullCaseTerm(h)
+			fb = append(fb, t)
+			rep.Histogram["full:histories"]++
+			sigs.Add("f:" + sig)
+			// non-trivial: a call that failed although nobody or not
+			// everybody who held the job offended, or a block returned
+			// after a liar was banned
+			if strings.Contains(sig, "i") && (strings.Contains(sig, "T") || strings.Contains(sig, "D")) || strings.Contains(sig, "b") && strings.Contains(sig, "N") {
+				nontrivial.Add("f:" + sig)
+			}
+			for _, cl := range h.Calls {
+				rep.Histogram["full:calls"]++
+				rep.Histogram["full:result:"+cl.Res]++
+				rep.Histogram["full:attempts"] += len(cl.Attempts)
+				rep.Histogram["full:bans_after_call_total"] += len(cl.Bans)
+				rep.Histogram["full:disconnected_by_service"] += len(cl.Disc)
+				for _, at := range cl.Attempts {
+					rep.Histogram["full:attempt_end:"+at.End]++
+				}
+				if int(cl.DrainMs) > rep.Histogram["full:slowest_pickup_ms"] {
+					rep.Histogram["full:slowest_pickup_ms"] = int(cl.DrainMs)
+				}
+				if int(cl.WallMs) > rep.Histogram["full:slowest_call_ms"] {
+					rep.Histogram["full:slowest_call_ms"] = int(cl.WallMs)
+				}
+			}
+		}
+		body := fmt.Sprintf(casesHead, " C06.FModel C06.ReplayF") + "Definition fcases : list (Z * fcase) := [\n" +
+			strings.Join(fb, ";\n") + "].\nDefinition R := Eval vm_compute in (run_fcases fcases).\n" + casesTail
+		c.WriteFile(filepath.Join(a.Out, "cases_f.v"), body)
+	}
+
 	rep.Histogram["distinct_signatures"] = len(sigs)
-	rep.Evaluations = len(hs)
+	rep.Evaluations = len(hs) + len(ts) + len(fs)
 	rep.DistinctNontrivial = len(nontrivial)
-	rep.Rule = "histories of 2-9 GetBlock calls on the real ChainService skeleton (real header store, LRU block cache, bbolt ban store) with a scripted work manager feeding honest/other/unknown blocks, 10 kinds of mutated blocks (merkle, duplicate tx, witness data/commitment), non-block messages and wrong requests from 6 peers; a history is non-trivial when it contains an offending (banned) response and a block returned from the network; distinct = distinct per-call signature of response classes (i ignored / b banned / a accepted) and outcome (N network, C cache, E error). Oracle values (btcd CheckBlockSanity / ValidateWitnessCommitment verdicts) are cross-checked on every response against an independent merkle-root / witness-commitment implementation in the harness."
-	for i := 0; i < len(hs) && i < 3; i++ {
+	rep.Rule = "(1) histories of 2-9 GetBlock calls on the real ChainService skeleton (real header store, LRU block cache, bbolt ban store) with a scripted work manager feeding honest/other/unknown blocks, 10 kinds of mutated blocks (merkle, duplicate tx, witness data/commitment), non-block messages and wrong requests from 6 peers; a history is non-trivial when it contains an offending (banned) response and a block returned from the network; distinct = distinct per-call signature of response classes (i ignored / b banned / a accepted) and outcome (N network, C cache, E error). Oracle values (btcd CheckBlockSanity / ValidateWitnessCommitment verdicts) are cross-checked on every response against an independent merkle-root / witness-commitment implementation in the harness. (2) TIMED family: the same skeleton under neutrino.BanDuration = 1.5 s with clock readings on every response: offence, ban, the ban lapses (no UnbanPeer, no restart), the same peer offends again; non-trivial = a peer banned before the lapse is seen banned again after it. (3) FULL-SERVICE family: GetBlock on a ChainService built by the real NewChainService (real work manager as NewChainService configures it, real workers, header / ban stores; not started, hook VerifQueryFront stands in for the peer handler) against scripted query.Peer objects {honest, invalid-block liar, unrelated block, unknown block, notfound/tx, silent until the job timer, hanging up}, NumRetries 0..3 and default; observed: attempts in order, result / error class, ban store, peers disconnected by the service; non-trivial = a call that failed with a bystander among the attempts, or a block returned after a liar was banned."
+	for i := 0; i < len(hs) && i < 2; i++ {
 		rep.Samples = append(rep.Samples, hs[i])
+	}
+	if len(fs) > 0 {
+		rep.Samples = append(rep.Samples, fs[0])
+	}
+	if len(ts) > 0 {
+		rep.Samples = append(rep.Samples, ts[0])
 	}
 	rep.Write(a.Out)
 }
